@@ -144,7 +144,7 @@ func runLockRulesP(c *Ctx, prop string, fnPred func(*ssa.Function) bool, ownerPr
 			c.Require(prop+".R3 no-blocking-under-lock", FuncKey(fn), p.Pos(fn.Pos()), "no unbounded wait while a mutex is held", true, "")
 		}
 	}
-	c.MinInstances(prop+" functions with lock operations", nLockFns, 2)
+	c.MinInstances(prop+" functions with lock operations", nLockFns, 1)
 
 	// R2 cycles
 	{
@@ -394,6 +394,14 @@ func findCycle(g map[string]map[string]bool, nodes []string) []string {
 // "caller holds the lock" are analysed with it held).
 func entryHeld(p *Program, owner, mf string) map[*ssa.Function]heldSet {
 	out := map[*ssa.Function]heldSet{}
+	for iter := 0; iter < 2; iter++ {
+		entryHeldMethods(p, out)
+		entryHeldClosures(p, out)
+	}
+	return out
+}
+
+func entryHeldMethods(p *Program, out map[*ssa.Function]heldSet) {
 	for round := 0; round < 3; round++ {
 		changed := false
 		for _, fn := range p.OwnFuncs {
@@ -448,7 +456,102 @@ func entryHeld(p *Program, owner, mf string) map[*ssa.Function]heldSet {
 			break
 		}
 	}
-	return out
+}
+
+func entryHeldClosures(p *Program, out map[*ssa.Function]heldSet) {
+	// function literals handed to a helper that runs them with a lock held
+	// (withLock(func(){ … })): the literal starts with what the caller holds at the call plus
+	// what the helper holds when it invokes its function parameter
+	for _, fn := range p.OwnFuncs {
+		if !IsProd(fn) || len(fn.Blocks) == 0 || fn.Parent() == nil {
+			continue
+		}
+		par := fn.Parent()
+		for _, b := range par.Blocks {
+			for _, in := range b.Instrs {
+				mc, ok := in.(*ssa.MakeClosure)
+				if !ok || mc.Fn != ssa.Value(fn) {
+					continue
+				}
+				for _, r := range *mc.Referrers() {
+					call, ok := r.(*ssa.Call)
+					if !ok {
+						continue
+					}
+					h := call.Common().StaticCallee()
+					if h == nil || !IsOwn(h) || len(h.Blocks) == 0 {
+						continue
+					}
+					k := -1
+					for i, a := range call.Common().Args {
+						if a == ssa.Value(mc) {
+							k = i
+						}
+					}
+					if k < 0 || k >= len(h.Params) {
+						continue
+					}
+					// what does the helper hold when it calls parameter k?
+					hlf := lockFlow(h, out[h])
+					var atInvoke heldSet
+					for _, hb := range h.Blocks {
+						for _, hin := range hb.Instrs {
+							if dc, ok := hin.(*ssa.Call); ok && dc.Common().Value == ssa.Value(h.Params[k]) {
+								atInvoke = hlf.Must[hin]
+							}
+						}
+					}
+					plf := lockFlow(par, out[par])
+					held := heldSet{}
+					for key, l := range plf.Must[call] {
+						held[key] = l
+					}
+					if len(call.Common().Args) > 0 && len(atInvoke) > 0 {
+						recv := stripFree(plf.tb.of(call.Common().Args[0], 0)).String()
+						for _, l := range atInvoke {
+							if strings.HasPrefix(l.Path, "p0.") {
+								np := recv + strings.TrimPrefix(l.Path, "p0")
+								held[np+"/"+string(l.Mode)] = LockRef{Path: np, TypeID: l.TypeID, Mode: l.Mode}
+							}
+						}
+					}
+					// express the paths the way the literal sees the captured variables
+					clf := lockFlow(fn, nil)
+					tr := heldSet{}
+					for _, l := range held {
+						np := l.Path
+						for i, bnd := range mc.Bindings {
+							if i >= len(fn.FreeVars) {
+								continue
+							}
+							outer := ""
+							var inner *Term
+							if al, isAl := bnd.(*ssa.Alloc); isAl {
+								if sv := uniqueStore(al); sv != nil {
+									outer = stripFree(plf.tb.of(sv, 0)).String()
+								}
+								for _, fr := range *fn.FreeVars[i].Referrers() {
+									if ld, isLd := fr.(*ssa.UnOp); isLd && ld.X == ssa.Value(fn.FreeVars[i]) {
+										inner = stripFree(clf.tb.of(ld, 0))
+									}
+								}
+							} else {
+								outer = stripFree(plf.tb.of(bnd, 0)).String()
+								inner = stripFree(clf.tb.of(fn.FreeVars[i], 0))
+							}
+							if outer != "" && inner != nil && (np == outer || strings.HasPrefix(np, outer+".")) {
+								np = inner.String() + strings.TrimPrefix(np, outer)
+							}
+						}
+						tr[np+"/"+string(l.Mode)] = LockRef{Path: np, TypeID: l.TypeID, Mode: l.Mode}
+					}
+					if len(tr) > 0 {
+						out[fn] = tr
+					}
+				}
+			}
+		}
+	}
 }
 
 // checkChanDiscipline: R6.
@@ -462,15 +565,29 @@ func checkChanDiscipline(c *Ctx, prop, owner, mf string) {
 	}
 	var ops []chanOp
 	closesUnderLock := false
+	entry := entryHeld(p, owner, mf)
 	for _, fn := range p.OwnFuncs {
-		if !IsProd(fn) || len(fn.Blocks) == 0 || fn.Signature.Recv() == nil {
+		if !IsProd(fn) || len(fn.Blocks) == 0 {
 			continue
 		}
-		if o, _ := ownerOfFieldBase(fn.Signature.Recv().Type()); o != owner {
+		// methods of the owner, and the function literals inside them
+		top := fn
+		for top.Parent() != nil {
+			top = top.Parent()
+		}
+		if top.Signature.Recv() == nil {
 			continue
 		}
-		lf := lockFlow(fn, heldSet{})
-		for _, b := range blocksDeep(fn) {
+		if o, _ := ownerOfFieldBase(top.Signature.Recv().Type()); o != owner {
+			continue
+		}
+		if fn.Parent() != nil {
+			if _, isGoBody := goBodies(p)[fn]; isGoBody {
+				continue // goroutine bodies start with nothing held and are judged by their own lock operations below
+			}
+		}
+		lf := lockFlow(fn, entry[fn])
+		for _, b := range fn.Blocks {
 			for _, in := range b.Instrs {
 				kind := ""
 				switch x := in.(type) {
@@ -488,7 +605,7 @@ func checkChanDiscipline(c *Ctx, prop, owner, mf string) {
 				for _, h := range lf.Must[in] {
 					// close needs the exclusive lock; a send is excluded from a
 					// concurrent close by either mode
-					if h.Path == "p0."+mf && (h.Mode == 'W' || kind == "send") {
+					if (h.Path == "p0."+mf || h.TypeID == owner+"."+mf) && (h.Mode == 'W' || kind == "send") {
 						locked = true
 					}
 				}
@@ -506,4 +623,31 @@ func checkChanDiscipline(c *Ctx, prop, owner, mf string) {
 		c.Require(prop+".R6 send-close-exclusion", FuncKey(o.fn)+": "+o.kind, p.InstrPos(o.in),
 			"channels of "+owner+" are closed under its mutex, so every close must hold it exclusively and every send must hold it (send on closed channel panics)", o.locked, "")
 	}
+}
+
+var goBodiesMemo map[*ssa.Function]bool
+
+// goBodies: function literals started with `go`.
+func goBodies(p *Program) map[*ssa.Function]bool {
+	if goBodiesMemo != nil {
+		return goBodiesMemo
+	}
+	goBodiesMemo = map[*ssa.Function]bool{}
+	for _, fn := range p.OwnFuncs {
+		for _, b := range fn.Blocks {
+			for _, in := range b.Instrs {
+				if g, ok := in.(*ssa.Go); ok {
+					switch v := g.Common().Value.(type) {
+					case *ssa.MakeClosure:
+						if f, ok := v.Fn.(*ssa.Function); ok {
+							goBodiesMemo[f] = true
+						}
+					case *ssa.Function:
+						goBodiesMemo[v] = true
+					}
+				}
+			}
+		}
+	}
+	return goBodiesMemo
 }
